@@ -22,6 +22,7 @@ PYTHONPATH="$WT/src" /venv/bin/python "$DEMO" >/tmp/demo_without.txt 2>&1; WITHO
 git apply "$OUT/patch.diff"
 echo "demo exit with change: $WITH, without: $WITHOUT"
 cd /verif
+EVBAK=$(mktemp -d); cp evidence/*.json "$EVBAK"/   # the evidence of seeded runs must not replace the clean-tree evidence
 git -C /repo apply "$OUT/patch.diff" || { echo "patch does not apply to /repo"; exit 2; }
 RESULTS=""
 for P in "$PROP" "$@"; do
@@ -30,6 +31,7 @@ for P in "$PROP" "$@"; do
   RESULTS="$RESULTS $P=[$R]"
 done
 git -C /repo checkout -- . ; git -C /repo status --short | head -3
+cp "$EVBAK"/*.json evidence/; rm -rf "$EVBAK"
 cat > "$OUT/meta.json" <<JSON
 {"seed": "$SID", "property": "$PROP", "suite_with_change": "$SUITE", "demo_exit_with_change": $WITH,
  "demo_exit_without_change": $WITHOUT, "checks_run": "$(echo $RESULTS | sed 's/"/\\"/g')"}
